@@ -10,6 +10,7 @@ CONSTANTS MaxW, MaxH, MaxC, MaxI
 Geoms == { <<Wd, Hd, l, t, r, b, w, h>> : Wd \in 1..MaxW, Hd \in 1..MaxH, l \in 0..MaxC, t \in 0..MaxC, r \in 0..MaxC, b \in 0..MaxC, w \in 0..MaxI, h \in 0..MaxI }
 Case(g) == LET ins == Inside(g[1], g[2], g[3], g[4], g[5], g[6], g[7], g[8]) IN
            [Wd |-> g[1], Hd |-> g[2], l |-> g[3], t |-> g[4], r |-> g[5], b |-> g[6], w |-> g[7], h |-> g[8], inside |-> ins,
+            okp |-> OkPermitted(g[1], g[2], g[3], g[4], g[5], g[6], g[7], g[7] * g[8]),
             writes |-> IF ins THEN Writes(g[1], g[3], g[4], g[5], g[6], g[7]) ELSE <<>>]
 ASSUME LET Sq == SetToSeq(Geoms) IN ndJsonSerialize(IOEnv.BLITCASES, [k \in 1..Len(Sq) |-> Case(Sq[k])])
 \* self-check of the reference: Paint changes exactly the rectangle
